@@ -45,6 +45,7 @@ type Result struct {
 	States       []uint64       `json:"-"` // distinct state digests reached
 	Log          []string       `json:"log,omitempty"`
 	Inconclusive int            `json:"inconclusive,omitempty"`
+	EvCmds       map[int][]string `json:"ev_cmds,omitempty"` // engine B, Config.Count: event index -> database commands of its exchange
 }
 
 // Canon renders any JSON-marshalable value canonically (sorted keys, numbers as float64).
